@@ -745,3 +745,178 @@ def alarm_guard_prefix_after_rebind(src):
     tbl = {}
     _guard_then_rebind_later(tbl, src.lib["x"], src.lib["y"])
     tbl["j"].append(1)
+
+
+# ---- numbers and strings are invisible to the analysis: a decision must not rest on their absence --------------------------
+def _none_or_number(src, y=None):
+    if y is None:
+        return
+    src.width = 1
+
+
+def alarm_none_test_scalar_argument(src):
+    _none_or_number(src)
+    _none_or_number(src, 5)
+
+
+def _none_or_string_attr(src, y=None):
+    if y is None:
+        return
+    src.width = 1
+
+
+def alarm_none_test_string_from_source(src):
+    _none_or_string_attr(src)
+    _none_or_string_attr(src, "x".upper())
+
+
+class _Foo:
+    pass
+
+
+def _foo_or_string(src, x):
+    if isinstance(x, _Foo):
+        return
+    src.width = 1
+
+
+def alarm_isinstance_scalar_argument(src):
+    _foo_or_string(src, _Foo())
+    _foo_or_string(src, "name")
+
+
+def _foo_or_len(src, x):
+    if isinstance(x, _Foo):
+        return
+    src.width = 1
+
+
+def alarm_isinstance_computed_scalar(src):
+    _foo_or_len(src, _Foo())
+    _foo_or_len(src, len(src.glyphs))
+
+
+def _none_or_computed(src, y):
+    if y is None:
+        return
+    src.width = 1
+
+
+def alarm_none_test_none_or_number(src):
+    _none_or_computed(src, None if src.flag else len(src.glyphs))
+
+
+def _none_or_computed2(src, y):
+    if y is None:
+        return
+    src.width = 1
+
+
+def ok_none_test_always_none(src):
+    _none_or_computed2(src, None if src.flag else None)
+
+
+def _str_or_foo(src, x):
+    if isinstance(x, str):
+        src.width = 1
+
+
+def alarm_isinstance_str_not_decided_false(src):
+    _str_or_foo(src, _Foo())
+    _str_or_foo(src, "a" + src.name)
+
+
+def _str_or_foo2(src, x):
+    if isinstance(x, str):
+        src.width = 1
+
+
+def ok_isinstance_str_decided_false(src):
+    _str_or_foo2(src, _Foo())
+
+
+def alarm_isinstance_enumerate_index(src):
+    for i, g in enumerate([_Foo()]):
+        _foo_or_len2(src, i)
+        _foo_or_len2(src, g)
+
+
+def _foo_or_len2(src, x):
+    if isinstance(x, _Foo):
+        return
+    src.width = 1
+
+
+# ---- containers made from untracked values are containers all the same -----------------------------------------------------
+def alarm_list_from_string_method(src):
+    parts = "a b".split()
+    parts.append(src)
+    parts[-1].width = 1
+
+
+def ok_list_from_string_method(src):
+    parts = src.name.split()
+    parts.append(deepcopy(src))
+    parts[-1].width = 1
+
+
+def alarm_bound_append_as_value(src):
+    xs = []
+    add = xs.append
+    add(src)
+    xs[0].width = 1
+
+
+def alarm_bound_dict_setdefault_as_value(src):
+    d = {}
+    put = d.setdefault
+    put("k", src)
+    d["k"].width = 1
+
+
+def alarm_source_bound_mutator_as_value(src):
+    f = src.appendAnchor
+    f({})
+
+
+# ---- match statements: names captured by patterns ---------------------------------------------------------------------------
+def alarm_match_capture(src):
+    match src:
+        case x:
+            x.width = 1
+
+
+def alarm_match_capture_sequence(src):
+    match [1, [src]]:
+        case [_, [y]]:
+            y.width = 1
+
+
+def alarm_match_capture_star(src):
+    match (1, src, src):
+        case (_, *rest):
+            rest[0].width = 1
+
+
+def alarm_match_capture_mapping_rest(src):
+    match {"a": 1, "b": src}:
+        case {"a": 1, **others}:
+            others["b"].width = 1
+
+
+def alarm_match_capture_class_attribute(src):
+    h = _Holder(src)
+    match h:
+        case _Holder(item=z):
+            z.width = 1
+
+
+def ok_match_capture_copy(src):
+    match [1, deepcopy(src)]:
+        case [_, y]:
+            y.width = 1
+
+
+class _Holder:
+    def __init__(self, item):
+        self.item = item
